@@ -1388,9 +1388,12 @@ class Store:
                 deep_merge_check(processes, daughter.get('steps', {}))
             else:
                 # if no processes provided, copy the mother's processes
-                mother_processes = self.get_path(mother_path).get_processes()
-                processes = copy.deepcopy(mother_processes)
+                # and steps (the mother's flow is inherited below)
+                mother_store = self.get_path(mother_path)
+                processes = copy.deepcopy(mother_store.get_processes())
                 processes = processes or {}
+                mother_steps = copy.deepcopy(mother_store.get_steps())
+                deep_merge_check(processes, mother_steps or {})
 
             # get the daughter topology
             if 'topology' in daughter:
